@@ -67,6 +67,122 @@ type c08Pod struct {
 	cSched, cInit     int64    // custom seconds, -1 absent
 	req, lim          [2]int64 // amounts placed in the pod (cpu milli, memory bytes)
 	raw               *c08Raw  // non-nil: the object is built from this raw shape and the fields above are DERIVED from it
+	st                c08Stat  // status.containerStatuses[].resources / allocatedResources (in-place resize); NOT read by the estimate
+}
+
+// c08Stat: what the kubelet reports in status.containerStatuses (and initContainerStatuses of sidecars).  The amounts are
+// derived from a SNAPSHOT of the pod's (class, request, limit) taken when the status was generated, so that a later spec
+// update leaves the status behind (spec shrunk in place, status still large) until a status-only update catches up.
+// Raw-shape pods: derived from the current containers.
+type c08Stat struct {
+	kind     int // 0 no container statuses, 1 equal to the snapshot, 2 twice (1 cpu where empty), 3 half, 4 statuses without resources, 5 resources equal + allocatedResources x3
+	cls      int
+	req, lim [2]int64
+}
+
+func (s c08Stat) toks() string {
+	return vInts([]int64{int64(s.kind), int64(s.cls), s.req[0], s.lim[0], s.req[1], s.lim[1]})
+}
+
+func c08GenStat(r *vRand, p c08Pod) c08Stat {
+	req, lim := p.amounts()
+	return c08Stat{kind: int(r.Pick([]int64{1, 1, 2, 2, 2, 3, 3, 4, 5})), cls: p.cls, req: req, lim: lim}
+}
+
+func c08ScaleRL(rl corev1.ResourceList, num, den int64) corev1.ResourceList {
+	if rl == nil {
+		return nil
+	}
+	out := corev1.ResourceList{}
+	for k, q := range rl {
+		out[k] = *resource.NewMilliQuantity(q.MilliValue()*num/den, q.Format)
+	}
+	return out
+}
+
+// applyStatus fills pod.Status.ContainerStatuses / InitContainerStatuses (Spec and Conditions are not touched)
+func (p c08Pod) applyStatus(pod *corev1.Pod) {
+	st := p.st
+	if st.kind == 0 {
+		return
+	}
+	base := pod.Spec.Containers
+	if p.raw == nil {
+		base = c08Containers(st.cls, p.uid, st.req, st.lim)
+	}
+	one := func(name string, res corev1.ResourceRequirements) corev1.ContainerStatus {
+		cs := corev1.ContainerStatus{Name: name, Ready: true}
+		switch st.kind {
+		case 1:
+			cs.Resources = &corev1.ResourceRequirements{Requests: c08ScaleRL(res.Requests, 1, 1), Limits: c08ScaleRL(res.Limits, 1, 1)}
+			cs.AllocatedResources = c08ScaleRL(res.Requests, 1, 1)
+		case 2:
+			cs.Resources = &corev1.ResourceRequirements{Requests: c08ScaleRL(res.Requests, 2, 1), Limits: c08ScaleRL(res.Limits, 2, 1)}
+			if len(res.Requests) == 0 && len(res.Limits) == 0 {
+				cs.Resources.Requests = corev1.ResourceList{c08ResName(st.cls, 0): c08Qty(st.cls, 0, 1000)}
+			}
+			cs.AllocatedResources = cs.Resources.Requests
+		case 3:
+			cs.Resources = &corev1.ResourceRequirements{Requests: c08ScaleRL(res.Requests, 1, 2), Limits: c08ScaleRL(res.Limits, 1, 2)}
+		case 5:
+			cs.Resources = &corev1.ResourceRequirements{Requests: c08ScaleRL(res.Requests, 1, 1), Limits: c08ScaleRL(res.Limits, 1, 1)}
+			cs.AllocatedResources = c08ScaleRL(res.Requests, 3, 1)
+			if len(res.Requests) == 0 {
+				cs.AllocatedResources = corev1.ResourceList{c08ResName(st.cls, 0): c08Qty(st.cls, 0, 1000)}
+			}
+		}
+		return cs
+	}
+	for i, sc := range pod.Spec.Containers {
+		res := sc.Resources
+		if p.raw == nil {
+			res = corev1.ResourceRequirements{}
+			if i < len(base) {
+				res = base[i].Resources
+			}
+		}
+		pod.Status.ContainerStatuses = append(pod.Status.ContainerStatuses, one(sc.Name, res))
+	}
+	for _, ic := range pod.Spec.InitContainers {
+		pod.Status.InitContainerStatuses = append(pod.Status.InitContainerStatuses, one(ic.Name, ic.Resources))
+	}
+}
+
+// one or two containers; an even amount of an odd-uid pod is split in halves
+func c08Containers(cls, uid int, areq, alim [2]int64) []corev1.Container {
+	two := uid%2 == 1
+	cs := []corev1.Container{{Name: "a"}}
+	if two {
+		cs = append(cs, corev1.Container{Name: "b"})
+	}
+	put := func(list *corev1.ResourceList, idx int, v int64) {
+		if v <= 0 {
+			return
+		}
+		if *list == nil {
+			*list = corev1.ResourceList{}
+		}
+		(*list)[c08ResName(cls, idx)] = c08Qty(cls, idx, v)
+	}
+	for idx := 0; idx < 2; idx++ {
+		for _, rl := range []struct {
+			v   int64
+			lim bool
+		}{{areq[idx], false}, {alim[idx], true}} {
+			parts := []int64{rl.v}
+			if two && rl.v%2 == 0 {
+				parts = []int64{rl.v / 2, rl.v / 2}
+			}
+			for ci, v := range parts {
+				if rl.lim {
+					put(&cs[ci].Resources.Limits, idx, v)
+				} else {
+					put(&cs[ci].Resources.Requests, idx, v)
+				}
+			}
+		}
+	}
+	return cs
 }
 
 // amounts of the translated resource name: a free-class pod has none.
@@ -130,7 +246,9 @@ func c08CondObj(typ corev1.PodConditionType, c c08Cond, t0 time.Time) *corev1.Po
 // build is a deterministic function of the tokens (OnUpdate compares Spec and Conditions with DeepEqual).
 func (p c08Pod) build(t0 time.Time) *corev1.Pod {
 	if p.raw != nil {
-		return p.buildRaw(t0)
+		pod := p.buildRaw(t0)
+		p.applyStatus(pod)
+		return pod
 	}
 	pod := &corev1.Pod{ObjectMeta: metav1.ObjectMeta{Namespace: "ns", Name: "p" + strconv.Itoa(p.key), UID: types.UID("u" + strconv.Itoa(p.uid)),
 		Annotations: map[string]string{}}}
@@ -167,41 +285,9 @@ func (p c08Pod) build(t0 time.Time) *corev1.Pod {
 	if p.cInit >= 0 {
 		pod.Annotations[extension.AnnotationCustomEstimatedSecondsAfterInitialized] = strconv.FormatInt(p.cInit, 10)
 	}
-	// one or two containers; an even amount of an odd-uid pod is split in halves
-	two := p.uid%2 == 1
-	cs := []corev1.Container{{Name: "a"}}
-	if two {
-		cs = append(cs, corev1.Container{Name: "b"})
-	}
-	put := func(list *corev1.ResourceList, idx int, v int64) {
-		if v <= 0 {
-			return
-		}
-		if *list == nil {
-			*list = corev1.ResourceList{}
-		}
-		(*list)[c08ResName(p.cls, idx)] = c08Qty(p.cls, idx, v)
-	}
 	areq, alim := p.amounts() // a free-class pod carries no resources at all (its translated name is empty)
-	for idx := 0; idx < 2; idx++ {
-		for _, rl := range []struct {
-			v   int64
-			lim bool
-		}{{areq[idx], false}, {alim[idx], true}} {
-			parts := []int64{rl.v}
-			if two && rl.v%2 == 0 {
-				parts = []int64{rl.v / 2, rl.v / 2}
-			}
-			for ci, v := range parts {
-				if rl.lim {
-					put(&cs[ci].Resources.Limits, idx, v)
-				} else {
-					put(&cs[ci].Resources.Requests, idx, v)
-				}
-			}
-		}
-	}
-	pod.Spec.Containers = cs
+	pod.Spec.Containers = c08Containers(p.cls, p.uid, areq, alim)
+	p.applyStatus(pod)
 	return pod
 }
 
@@ -419,6 +505,18 @@ func (c *c08Run) markStale(node int, p c08Pod) {
 		c.ns(node).pods[p.uid] = cur
 		c.h.Tag("update:metadata-only-estimate-relevant")
 	}
+}
+
+// shRefresh: an update the cache does not act on (same spec, same conditions, no estimate-relevant metadata change, e.g. a
+// status-only update).  "From scratch" reads the CURRENT object of the pod, so the fresh cache of oracle (b) is fed the new
+// object (same name, plain shape, not a reserve pod: everything else the estimate reads is equal by the guards before).
+func (c *c08Run) shRefresh(node int, p c08Pod, obj *corev1.Pod) {
+	cur, ok := c.ns(node).pods[p.uid]
+	if !ok || cur.stale || p.raw != nil || cur.pod.raw != nil || p.key != cur.pod.key || p.rsv || p.term {
+		return
+	}
+	cur.obj, cur.pod.st = obj, p.st
+	c.ns(node).pods[p.uid] = cur
 }
 
 func (s c08Shadow) timestamp() int64 {
@@ -789,6 +887,9 @@ func c08GenPod(r *vRand, cfg c08Cfg, uid, nNodes int, near int64) c08Pod {
 	if cfg.glue && r.Bool() {
 		c08GenRaw(r, &p, cfg.specIDs)
 	}
+	if r.Chance(1, 3) { // a running pod whose container statuses carry resources (in-place resize)
+		p.st = c08GenStat(r, p)
+	}
 	return p
 }
 
@@ -970,6 +1071,49 @@ func c08Vec2(v ResourceVector) [2]int64 {
 		x[i] = v[i]
 	}
 	return x
+}
+
+// genMetricEvent: the next NodeMetric object of a node.  mode 0: spec and status generated anew; 1: SPEC-ONLY update of the
+// object in force (status deep-equal, reportIntervalSeconds and the aggregate-duration fields of the collect policy changed);
+// 2: STATUS-ONLY update (a new report under the same spec).  The oracles read the CURRENT object (spec + status).
+func (c *c08Run) genMetricEvent(node int, near int64, keys []int) (*c08Metric, *slov1alpha1.NodeMetric, int) {
+	r := c.r
+	prevM, prevObj := c.ns(node).metric, c.ns(node).metricObj
+	mode := 0
+	if prevM != nil && prevObj != nil {
+		mode = []int{0, 0, 0, 1, 1, 2}[r.Intn(6)]
+	}
+	switch mode {
+	case 1:
+		mm := *prevM
+		for mm.interval == prevM.interval {
+			mm.interval = r.Pick([]int64{-1, 0, 10, 30, 60, 120, 300, 600})
+		}
+		obj := prevObj.DeepCopy()
+		if mm.interval >= 0 {
+			iv := mm.interval
+			obj.Spec.CollectPolicy = &slov1alpha1.NodeMetricCollectPolicy{ReportIntervalSeconds: &iv}
+		} else if r.Bool() {
+			obj.Spec.CollectPolicy = &slov1alpha1.NodeMetricCollectPolicy{}
+		} else {
+			obj.Spec.CollectPolicy = nil
+		}
+		if cp := obj.Spec.CollectPolicy; cp != nil && r.Bool() {
+			ad := r.Pick([]int64{60, 300, 600})
+			cp.AggregateDurationSeconds = &ad
+			cp.NodeAggregatePolicy = &slov1alpha1.AggregatePolicy{Durations: []metav1.Duration{{Duration: time.Duration(ad) * time.Second}, {Duration: 30 * time.Minute}}}
+		}
+		obj.ResourceVersion = strconv.Itoa(r.Range(2, 999))
+		return &mm, obj, 1
+	case 2:
+		m := c08GenMetric(r, near, keys)
+		m.interval = prevM.interval
+		obj := m.build(node, c.t0, r)
+		obj.Spec = *prevObj.Spec.DeepCopy()
+		return m, obj, 2
+	}
+	m := c08GenMetric(r, near, keys)
+	return m, m.build(node, c.t0, r), 0
 }
 
 // observe every node after an event and evaluate the cache oracles
@@ -1530,6 +1674,10 @@ func c08ShapeObs(obj *corev1.Pod) string {
 
 // emitShape announces the raw shape of the pod of the next pod-carrying op and checks the glue on the built object
 func (c *c08Run) emitShape(p c08Pod, obj *corev1.Pod) {
+	if p.st.kind != 0 { // container-status resources of the next pod: announced to the model, which does not read them
+		c.h.Op("pst %s", p.st.toks())
+		c.h.Tag(fmt.Sprintf("pod:status-resources=%d", p.st.kind))
+	}
 	if p.raw == nil {
 		return
 	}
@@ -1872,6 +2020,7 @@ func (c *c08Run) shUpdate(oldNode int, p c08Pod, obj *corev1.Pod, now int64) {
 			c.shAssign(p.specNode, p, obj, now)
 		default:
 			c.markStale(p.specNode, p)
+			c.shRefresh(p.specNode, p, obj)
 		}
 	}
 	c.pool[p.uid] = p
@@ -1934,7 +2083,9 @@ func (c *c08Run) doSegment(node, nUID int, near, now int64) {
 			if p.term { // a terminal pod stays terminal here (that would be a delete-type event)
 				p.term = false
 			}
-			switch mut := r.Intn(4); {
+			switch mut := r.Intn(5); {
+			case mut == 4: // status-only
+				p.st = c08GenStat(r, p)
 			case p.raw != nil && mut != 1:
 				c08MutRaw(r, &p, c.cfg.specIDs)
 			case mut == 0:
@@ -1997,9 +2148,11 @@ func (c *c08Run) doSegment(node, nUID int, near, now int64) {
 		}
 	}
 	nM := r.Range(1, 3)
+	segPrev := c.ns(node).metricObj // the object the informer would hand to UpdateFunc as `old`
 	for i := 0; i < nM; i++ {
 		if deletes == 0 && r.Chance(1, 3) {
 			deletes++
+			segPrev = nil
 			obj := &slov1alpha1.NodeMetric{ObjectMeta: metav1.ObjectMeta{Name: c08NodeName(node)}}
 			tomb := r.Bool()
 			mEvs = append(mEvs, &c08ConcEv{op: fmt.Sprintf("delmetric %d", node),
@@ -2020,9 +2173,13 @@ func (c *c08Run) doSegment(node, nUID int, near, now int64) {
 		m := c08GenMetric(r, near, keys)
 		obj := m.build(node, c.t0, r)
 		viaUpdate := r.Bool()
+		prevObj := segPrev
+		segPrev = obj
 		mEvs = append(mEvs, &c08ConcEv{op: fmt.Sprintf("metric %d %s", node, m.toks()),
 			run: func() {
-				if viaUpdate {
+				if viaUpdate && prevObj != nil {
+					mh.OnUpdate(prevObj, obj)
+				} else if viaUpdate {
 					mh.OnUpdate(nil, obj)
 				} else {
 					mh.OnAdd(obj, false)
@@ -2303,16 +2460,26 @@ func TestVerifC08(t *testing.T) {
 				for k := 1; k <= nUID; k++ {
 					keys = append(keys, k)
 				}
-				m := c08GenMetric(r, near, keys)
-				obj := m.build(node, t0, r)
+				m, obj, mode := c.genMetricEvent(node, near, keys)
+				prevObj := c.ns(node).metricObj
+				via := r.Intn(3) // 0 AddFunc, 1 UpdateFunc, 2 the cache method
+				if mode != 0 {
+					via = 1 // an update of the object the informer knows: UpdateFunc(old, new) of the REGISTERED handler
+				}
+				h.Op("mvia %d %d %d", via, vB(via == 1 && prevObj != nil), mode)
 				h.Op("metric %d %s", node, m.toks())
 				h.Tag("op:metric")
+				h.Tag(fmt.Sprintf("metric:via=%d:mode=%s", via, []string{"spec+status", "spec-only", "status-only"}[mode]))
 				panicked = h.Guard(func() {
-					switch r.Intn(3) {
+					switch via {
 					case 0:
 						mh.OnAdd(obj, false)
 					case 1:
-						mh.OnUpdate(nil, obj)
+						if prevObj != nil {
+							mh.OnUpdate(prevObj, obj)
+						} else {
+							mh.OnUpdate(nil, obj)
+						}
 					default:
 						c.pc.AddOrUpdateNodeMetric(obj)
 					}
@@ -2389,7 +2556,7 @@ func TestVerifC08(t *testing.T) {
 					p = c08GenPod(r, c.cfg, uid, c.nNodes, near)
 					old = p
 				}
-				mut := r.Intn(9)
+				mut := r.Intn(11)
 				if p.raw != nil && (mut <= 2 || mut == 8) {
 					c08MutRaw(r, &p, c.cfg.specIDs) // labels / annotation texts (metadata only) or the PodSpec
 					mut = 99
@@ -2415,6 +2582,13 @@ func TestVerifC08(t *testing.T) {
 					p.term = !p.term
 				case 7:
 					p.sched, p.init = c08GenCond(r, near), c08GenCond(r, near)
+				case 9, 10: // status-only update: the kubelet reports other container resources (catches up with the spec / lags / none)
+					if r.Chance(1, 5) {
+						p.st = c08Stat{}
+					} else {
+						p.st = c08GenStat(r, p)
+					}
+					h.Tag("update:status-only")
 				default: // metadata-only update
 				}
 				if p.specNode == 0 && r.Chance(2, 3) { // the binding of a reserved pod becomes visible
@@ -2455,6 +2629,7 @@ func TestVerifC08(t *testing.T) {
 						c.shAssign(p.specNode, p, obj, now)
 					default:
 						c.markStale(p.specNode, p)
+						c.shRefresh(p.specNode, p, obj)
 					}
 				}
 				c.pool[uid] = p
